@@ -30,6 +30,7 @@ import (
 	"os"
 	"os/exec"
 	"path/filepath"
+	"runtime"
 	"sort"
 	"strconv"
 	"strings"
@@ -527,6 +528,46 @@ func main() {
 	}
 	js, _ := json.MarshalIndent(map[string]interface{}{"Replace": overlay}, "", " ")
 	if err := os.WriteFile(filepath.Join(*out, "overlay.json"), js, 0o644); err != nil {
+		die(2, "%v", err)
+	}
+	// second overlay (C13 only): package os with observable Write / Sync / Truncate
+	goroot := runtime.GOROOT()
+	if outb, err := exec.Command("go", "env", "GOROOT").Output(); err == nil {
+		goroot = strings.TrimSpace(string(outb))
+	}
+	osOverlay := map[string]string{}
+	for k, v := range overlay {
+		osOverlay[k] = v
+	}
+	patch := func(file string, reps [][2]string, extra string) {
+		src := filepath.Join(goroot, "src", "os", file)
+		b, err := os.ReadFile(src)
+		if err != nil {
+			die(2, "os hook: %v", err)
+		}
+		txt := string(b)
+		for _, r := range reps {
+			if !strings.Contains(txt, r[0]) {
+				die(2, "os hook: pattern %q not found in %s", r[0], src)
+			}
+			txt = strings.Replace(txt, r[0], r[1], 1)
+		}
+		txt += extra
+		_ = os.MkdirAll(filepath.Join(*out, "os"), 0o755)
+		o := filepath.Join(*out, "os", file)
+		if err := os.WriteFile(o, []byte(txt), 0o644); err != nil {
+			die(2, "%v", err)
+		}
+		osOverlay[src] = o
+	}
+	patch("file_posix.go", [][2]string{
+		{"func (f *File) Sync() error {\n", "func (f *File) Sync() error {\n\tif VerifHook != nil {\n\t\tVerifHook(\"sync\", f, 0)\n\t}\n"},
+	}, "\n// VerifHook observes Write / Sync / Truncate calls (verification overlay only).\nvar VerifHook func(op string, f *File, n int64)\n")
+	patch("file.go", [][2]string{
+		{"func (f *File) Write(b []byte) (n int, err error) {\n", "func (f *File) Write(b []byte) (n int, err error) {\n\tif VerifHook != nil {\n\t\tdefer func() { VerifHook(\"write\", f, int64(n)) }()\n\t}\n"},
+	}, "")
+	js, _ = json.MarshalIndent(map[string]interface{}{"Replace": osOverlay}, "", " ")
+	if err := os.WriteFile(filepath.Join(*out, "overlay_os.json"), js, 0o644); err != nil {
 		die(2, "%v", err)
 	}
 	fmt.Printf("mcrewrite: %d files rewritten, %d shim calls, %d sync imports replaced, overlay entries %d\n",
